@@ -6,7 +6,7 @@
                               precondition store of every triple whose REFERENCE conditions all hold, and checks Sound /
                               ExecAgrees / AllGuarded; it emits the whole universe (and terminating (program, store) pairs)
  ->  harness/drivers/c20.py   (a) imperative/com.py compute_wp + get_lines/get_vcs + parser2 re-parse + HOL form,
-                              (c) compute_wp twice on one object, (b) imperative/imp.py eval_Sem / vcg_norm + check_proof,
+                              (c) annotation histories on ONE object (compute_wp twice; another pre / post / invariant), (b) imperative/imp.py eval_Sem / vcg_norm + check_proof,
                               plus seeded random programs of nesting <= 3 (thorough: 4)
  T  spec/C20_HoareTrace.tla   VcSound / PrintParse / ParseFail / HolMeaning / EvalSemChecked / EvalSemFinal / VcgChecked /
                               VcgSound evaluated by TLC on every event
@@ -24,22 +24,28 @@ MAX_REPORTED_PER_CLAUSE = 12
 FALSE_POST = ["<", ["v", "x"], ["v", "x"]]
 
 MUTANTS = [
-    ("while_no_exit_condition",
+    ("while_no_exit_condition", "C20_HoareSem.tla",
      "<< c[3], rb[2] \\cup { <<\"imp\", <<\"and\", c[3], c[2]>>, rb[1]>>, <<\"imp\", <<\"and\", c[3], <<\"not\", c[2]>>>>, Q>> } >>",
      "<< c[3], rb[2] \\cup { <<\"imp\", <<\"and\", c[3], c[2]>>, rb[1]>> } >>"),
-    ("assign_no_substitution",
+    # the annotation cache as coded in a seeded change: an object already annotated for this postcondition keeps its
+    # conditions, the condition  P --> wp  for the NEW precondition is never generated
+    ("reannotate_cached_by_postcondition", "C20_Hoare.tla",
+     "AnnVCs(old, c, P, Q) == RefVCs(P, c, Q)",
+     "AnnVCs(old, c, P, Q) == IF old.n > 0 /\\ old.post = Q THEN WPV(c, Q)[2] ELSE RefVCs(P, c, Q)"),
+    ("assign_no_substitution", "C20_HoareSem.tla",
      "[] c[1] = \"asg\" -> <<SubB(Q, c[2], c[3]), {}>>",
      "[] c[1] = \"asg\" -> <<Q, {}>>"),
-    ("cond_wp_ignores_else_branch",
+    ("cond_wp_ignores_else_branch", "C20_HoareSem.tla",
      "<< <<\"ite\", c[2], r1[1], r2[1]>>, r1[2] \\cup r2[2] >>",
      "<< r1[1], r1[2] \\cup r2[2] >>"),
 ]
 
 
 def _mutant(rep, wd, m):
-    name, old, new = m
-    spec_mutant(rep, name, SSPEC, "C20_Hoare_tiny.cfg", [("C20_HoareSem.tla", old, new)], ["Sound"], wd=wd, workers=1,
-                env={"VECTOR_FILE": wd / ("mut_%s.ndjson" % name), "VECTOR_FILE_SEM": wd / ("mut_%s_sem.ndjson" % name)})
+    name, fn, old, new = m
+    spec_mutant(rep, name, SSPEC, "C20_Hoare_tiny.cfg", [(fn, old, new)], ["Sound"], wd=wd, workers=1,
+                env={"VECTOR_FILE": wd / ("mut_%s.ndjson" % name), "VECTOR_FILE_SEM": wd / ("mut_%s_sem.ndjson" % name),
+                     "VECTOR_FILE_HIST": wd / ("mut_%s_hist.ndjson" % name)})
 
 
 def _cap(v):
@@ -79,13 +85,13 @@ def run(rep, tier):
                        "function calls, forall) are not generated",
                        "TLC/SANY, the structural codecs of harness/drivers/c20.py, CPython"]
     cfg = "C20_Hoare_small.cfg" if quick else "C20_Hoare_deep.cfg"
-    vec, semvec = wd / "vectors.ndjson", wd / "semvectors.ndjson"
-    r = model_check(SSPEC, cfg, wd=wd / "mc", workers=2 if quick else 4, env={"VECTOR_FILE": vec, "VECTOR_FILE_SEM": semvec}, timeout=3600)
+    vec, semvec, histvec = wd / "vectors.ndjson", wd / "semvectors.ndjson", wd / "histvectors.ndjson"
+    r = model_check(SSPEC, cfg, wd=wd / "mc", workers=2 if quick else 4, env={"VECTOR_FILE": vec, "VECTOR_FILE_SEM": semvec, "VECTOR_FILE_HIST": histvec}, timeout=3600)
     rep.add_mc(SSPEC, r, cfg)
     if r.violated:
         rep.design_violation(SSPEC, r)
         return
-    require(vec.exists() and semvec.exists(), "C20_Hoare did not emit vectors")
+    require(vec.exists() and semvec.exists() and histvec.exists(), "C20_Hoare did not emit vectors")
     rep.exhaustive = True
     require(r.distinct >= 5000 and r.depth >= 8, "C20_Hoare explored too few executions (%d states, depth %d)" % (r.distinct, r.depth))
     ints = [ln for ln in open(vec) if '"dom":"int"' in ln]
@@ -103,11 +109,12 @@ def run(rep, tier):
         p = wd / ("intvec_%d.ndjson" % i)
         p.write_text("".join(chunk))
         parts.append(p)
-    nrandom = 300 if quick else 6000
+    nrandom = 240 if quick else 6000
     jobs = [("c20", ["com", parts[i], wd / ("com_%d.ndjson" % i), seed(), nrandom // 2, maxnest, 10, 1 + i * 2000000], None)
             for i in range(2)]
     nsem, nvcg, nrnd = (110, 36, 10) if quick else (1500, 360, 200)
-    mutants = MUTANTS[:1] if quick else MUTANTS
+    jobs.append(("c20", ["hist", histvec, wd / "com_2.ndjson", 1 + 4000000], None))
+    mutants = MUTANTS[:2] if quick else MUTANTS
     totals = {}
     verdicts = {}
 
@@ -124,8 +131,9 @@ def run(rep, tier):
         fm = ex.submit(lambda: [_mutant(rep, wd, m) for m in mutants])
         fi = ex.submit(run_driver, "c20", ["imp", vec, semvec, wd / "imp.ndjson", seed(), nsem, nvcg, nrnd], timeout=7200)
         run_drivers_parallel(jobs, timeout=7200, max_workers=2)
+        rep.notes["vectors"]["histories"] = sum(1 for _ in open(histvec))
         com_path = wd / "com.ndjson"
-        com_path.write_text("".join((wd / ("com_%d.ndjson" % i)).read_text() for i in range(2)))
+        com_path.write_text("".join((wd / ("com_%d.ndjson" % i)).read_text() for i in range(3)))
         judge("com", com_path, 3 if not fi.done() else 4)
         fi.result()
         fm.result()
@@ -194,7 +202,9 @@ def run(rep, tier):
     sem_nt = sum(1 for e in evs_i if e["kind"] == "sem" and e["tid"] in nt_i)
     vcg_nt = sum(1 for e in evs_i if e["kind"] == "vcg" and e["tid"] in nt_i)
     loops_nt = sum(1 for e in evs if e["tid"] in nt and '"while"' in json.dumps(e["prog"]))
-    rep.notes["nontrivial_breakdown"] = {"com": acc["com"]["nontrivial"], "com_with_loops": loops_nt, "sem": sem_nt, "vcg": vcg_nt}
+    hist_nt = sum(1 for e in evs if e["tid"] in nt and e["mode"] == "hist")
+    require(hist_nt >= (40 if quick else 300), "C20: too few soundness-examined annotation histories (vacuity guard): %d" % hist_nt)
+    rep.notes["nontrivial_breakdown"] = {"com_histories": hist_nt, "com": acc["com"]["nontrivial"], "com_with_loops": loops_nt, "sem": sem_nt, "vcg": vcg_nt}
     require(acc["com"]["nontrivial"] >= (150 if quick else 1500), "C20: too few soundness-examined com events (vacuity guard)")
     require(loops_nt >= (20 if quick else 200), "C20: too few soundness-examined loop programs (vacuity guard)")
     require(sem_nt >= (60 if quick else 1200), "C20: too few eval_Sem theorems compared with a reference run (vacuity guard)")
